@@ -247,8 +247,29 @@ func (vc *VC) runPass() {
 	if len(vc.contract.Ensures) > 0 {
 		vc.cover(final, fi.Key+"#cover[exit]", fi.Decl.Body.Rbrace)
 	}
+	// In a postcondition a parameter denotes the value the caller passed (that is what a caller
+	// assumes at the call site), also when the body re-assigns the parameter variable.
+	ensState := final
+	if fi.Decl.Type.Params != nil {
+		for _, f := range fi.Decl.Type.Params.List {
+			for _, id := range f.Names {
+				o := fr.info.Defs[id]
+				if o == nil || vc.isBoxed(o) {
+					continue
+				}
+				ev, ok1 := fr.entry.vars[o]
+				fv, ok2 := final.vars[o]
+				if ok1 && ok2 && ev.S != fv.S {
+					if ensState == final {
+						ensState = final.clone()
+					}
+					ensState.vars[o] = ev
+				}
+			}
+		}
+	}
 	for _, e := range vc.contract.Ensures {
-		vc.assertClause(final, fr.entry, e, fmt.Sprintf("%s#ensures[%s]", fi.Key, e.Label), "ensures", fi.Decl.Pos(), nil)
+		vc.assertClause(ensState, fr.entry, e, fmt.Sprintf("%s#ensures[%s]", fi.Key, e.Label), "ensures", fi.Decl.Pos(), nil)
 	}
 	// ghost frame: global ghosts not listed in assigns must be unchanged
 	declared := vc.prog.contractGhostAssigns(vc.contract)
